@@ -76,6 +76,13 @@ func checkC09(w *World, r *Report) {
 	// "an update function that reads atoms (or looks names up) cannot block the evaluation forever": the lookup's
 	// ascent through the scopes takes one lock per scope, never the same lock twice
 	ownLockRule(w, r, e, "C09.scope-lock")
+	// futures that issue updates are started from let initialisers and read the let's frame while it is filled:
+	// every write into a scope's table is made under that scope's lock (or before anybody else can see the scope)
+	r.rule("C09.scope-guard", "every access to a scope's table of bindings is made while the mutex of that scope is held, or on a scope that no call has been handed yet: a future started from a let initialiser reads the frame the let is still filling (shared with C11.data)")
+	guardRule(w, r, e, "C09.scope-guard", w.guardRows()[2])
+	// "an update function that fails leaves the atom unchanged": a failing update function fails - throw answers
+	// with an error on every path, whatever it is given
+	throwTotalRule(w, r, e, "C09.throw-total")
 	readersWriteNothingRule(w, r, e, "C09.readers-pure", "Atom", w.roles().atomMutex)
 	releaseOnPanicRule(w, r, e, "C09.release-on-panic", w.pkgFuncs("lib/concurrent"))
 	// "swap! ... installs and returns the result": swap!, reset! and deref reach programs through the binder's
@@ -2703,4 +2710,56 @@ func otherCondOr(a, b ssa.Instruction) ssa.Instruction {
 		return a
 	}
 	return b
+}
+
+// throwTotalRule: throw is how a lisp function fails. Its Go implementation returns a non-nil error on every
+// path: a path that can return (nil, nil) - an error object that unwraps to nothing - makes a failing update
+// function succeed with nil, and swap! installs that.
+func throwTotalRule(w *World, r *Report, e *Engine, rule string) {
+	r.rule(rule, "every return of the throw builtin (and the functions of its package it is built from) hands back an error that is known to be non-nil: a boxed concrete value, a new error, or a value under a non-nil guard - never the result of an accessor that may answer nil")
+	fn := w.builtin("throw")
+	if fn == nil {
+		r.undecided(rule, nil, "throw builtin", token.NoPos, "function no longer resolves")
+		return
+	}
+	n := 0
+	ei := hasErrorResult(fn)
+	for _, b := range fn.Blocks {
+		if len(b.Instrs) == 0 || b == fn.Recover || ei < 0 {
+			continue
+		}
+		ret, ok := b.Instrs[len(b.Instrs)-1].(*ssa.Return)
+		if !ok || ei >= len(ret.Results) {
+			continue
+		}
+		n++
+		ev := resolveRet(ret.Results[ei])
+		okErr := false
+		switch x := ev.(type) {
+		case *ssa.MakeInterface:
+			okErr = true
+			if _, isPtr := x.X.Type().Underlying().(*types.Pointer); isPtr {
+				_, isAlloc := x.X.(*ssa.Alloc)
+				okErr = isAlloc || e.nonNilFact(x.X, b)
+			}
+		case *ssa.Call:
+			if sc := x.Call.StaticCallee(); sc != nil && (fnPkgPath(sc) == "errors" || fnPkgPath(sc) == "fmt" || e.alwaysErr(sc, 0)) {
+				okErr = true
+			}
+		case *ssa.Extract:
+			// the argument itself, found to be an error by the type switch: an interface that holds something
+			if ta, isTA := x.Tuple.(*ssa.TypeAssert); isTA && ta.CommaOk && x.Index == 0 {
+				for _, a := range knownConds(b) {
+					if fx, isEx := a.v.(*ssa.Extract); isEx && fx.Tuple == ssa.Value(ta) && fx.Index == 1 && a.pol {
+						okErr = true
+					}
+				}
+			}
+			okErr = okErr || e.nonNilFact(ev, b)
+		default:
+			okErr = !isNilConst(ev) && e.nonNilFact(ev, b)
+		}
+		r.check(okErr, rule, fn, "error returned by throw", ret.Pos(), "known to be non-nil", "throw can return without an error here ("+describeVal(e, ev, 0)+" may be nil): the form (throw x) then evaluates to nil, a failing update function reports success and swap! installs nil")
+	}
+	r.floor(rule, "returns of the throw builtin", n, 1)
 }
